@@ -10,7 +10,7 @@ PROP_MODS = ["ODataVerif.Tie.Sql", "ODataVerif.Tie.SqlTemplates", "ODataVerif.Ti
 def cases_for(ctx):
     rng = ctx.rng
     nodes = sc.operator_nestings()
-    for h in ["x", "O'B", "100%", "a_c", "a\\b", ""]:
+    for h in ["x", "O'B", "100%", "a_c", "a\\b", "", "it's 100%", "o'_x", "%'", "a\\'b%", "'_'", "50%/50"]:
         nodes += sc.string_positions(h)
     g = gens_typed.TypedGen(rng)
     typed = []
